@@ -288,6 +288,28 @@ pub struct TimedRun {
 }
 
 static FIFO_SEQ: AtomicU64 = AtomicU64::new(0);
+static STREAMS: OnceLock<bool> = OnceLock::new();
+
+/// Does the reader process a file source incrementally (line by line as the bytes arrive)? Timed runs only
+/// mean something if it does: a reader that first reads its whole input (legitimate for a file) would see
+/// every line at the final instant. Probed once per process: two portions, the table is inspected between them.
+pub fn file_source_streams() -> bool {
+    *STREAMS.get_or_init(|| {
+        let cfg = Cfg::named(&[], "probe.fifo");
+        let t = crate::snap::new_table();
+        let a = crate::frames::df11(5, 0x4CA2D6, 0).hex().into_bytes();
+        let b = crate::frames::df11(5, 0x3C6586, 0).hex().into_bytes();
+        let seen = std::sync::Arc::new(AtomicBool::new(false));
+        let steps = vec![TimedStep { bytes: join_lines(&[a]), advance_ms: 1 }, TimedStep { bytes: join_lines(&[b]), advance_ms: 0 }];
+        let (t2, seen2) = (t.clone(), seen.clone());
+        let rep = run_timed_with(&cfg, &steps, &t, move |i| {
+            if i == 0 && t2.read().map(|g| g.contains_key(&0x4CA2D6)).unwrap_or(false) {
+                seen2.store(true, SeqCst);
+            }
+        });
+        rep.machinery.is_none() && rep.outcome.is_ok() && seen.load(SeqCst)
+    })
+}
 
 /// the fd (other than `mine`) of this process that has `path` open
 fn other_fd_on(path: &std::path::Path, mine: i32) -> Option<i32> {
@@ -324,6 +346,11 @@ fn pipe_drained_and_reader_blocked(rfd: i32) -> bool {
 /// `advance_ms` between portions. The table's time stamps are real `Utc::now()` values of that virtual time,
 /// so fields the harness does not know (and cannot shift in a snapshot) age too. Ends with EOF; joins.
 pub fn run_timed(cfg: &Cfg, steps: &[TimedStep], table: &Table) -> TimedRun {
+    run_timed_with(cfg, steps, table, |_| {})
+}
+
+/// as `run_timed`; `after(i)` is called when portion i has been consumed, before the clock moves
+pub fn run_timed_with(cfg: &Cfg, steps: &[TimedStep], table: &Table, after: impl Fn(usize)) -> TimedRun {
     use crate::shim;
     let mut rep = TimedRun { outcome: Outcome::Ok, elapsed_ms: 0, all_consumed: true, machinery: None };
     let _ = std::fs::remove_file(&cfg.path);
@@ -362,7 +389,7 @@ pub fn run_timed(cfg: &Cfg, steps: &[TimedStep], table: &Table) -> TimedRun {
             shim::real_sleep_us(20);
             rfd = other_fd_on(&cfg.path, wfd);
         }
-        for s in steps {
+        for (si, s) in steps.iter().enumerate() {
             WD_SINCE_MS.store(mono_ms(), SeqCst);
             let mut off = 0usize;
             while off < s.bytes.len() {
@@ -399,6 +426,7 @@ pub fn run_timed(cfg: &Cfg, steps: &[TimedStep], table: &Table) -> TimedRun {
                     eprintln!("timed debug: rfd {rfd:?} wfd {wfd} ioctl {r:?} inq {inq} finished {} waited {} ms syscalls {sc:?}", h.is_finished(), mono_ms() - t0);
                 }
             }
+            after(si);
             if s.advance_ms != 0 {
                 shim::advance_monotonic(s.advance_ms / 1000, (s.advance_ms % 1000) * 1_000_000);
             }
